@@ -719,6 +719,8 @@ def walk_path(path, params=(), init_env=None, kill_attr_on_call=None, prog=None,
         if inl is None or scope.func is None or not isinstance(rawcall, ast.Call):
             return None
         f = inl.callee(scope.func, rawcall)
+        if f is None and isinstance(newcall.func, ast.Name) and newcall.func is not rawcall.func:
+            f = inl.callee(scope.func, newcall)       # a local alias bound to a helper: cast = _as_object if G else _unchanged
         if f is None:
             return None
         body = Inliner.simple_expr(f)
